@@ -18,5 +18,15 @@ def units(ctx):
         McUnit("typed", "TypedValue", cfgkind="mcthorough", thorough_only=True),
         McUnit("typed", "TypedStore", cfgkind="mcthorough", thorough_only=True),
     ]
-    # --- interleaving part (concurrent Compute/Set/Delete are serialised): added below ---
+    # --- interleaving part (concurrent Compute/Set/Delete are serialised) ---
+    from lib import lin
+    us += [
+        # lock-level model, all interleavings of 3 callers x {Get, Set, Delete, Compute}: cache coherent, no lost update
+        McUnit("typed", "TypedValueImpl", "", name="TypedValueImpl"),
+        McUnit("typed", "TypedValueImpl", "unlocks", name="ctl-compute-unlocks", expect="NoLostUpdate"),
+        McUnit("typed", "TypedValueImpl", "cachefirst", name="ctl-set-cache-first", expect="CacheCoherent"),
+        # concurrent histories of the real TypedValue (forced: compute function as a gate; free-running; pure increments),
+        # TLC searches a linearization of each against an atomic register
+        lin.LinUnit("typed", "RegLin", "tvconc", ["-histories", 80], ["-histories", 1000], "TypedValue", name="RegLin:tvconc"),
+    ]
     return us
